@@ -20,8 +20,8 @@ func init() {
 
 func menu(w *chain.World) []chain.Action {
 	return []chain.Action{
-		chain.V1Pay(true, 2), chain.V1SF(true), chain.V1Form(1, 2, 100), chain.V1Form(0, 2, 10), chain.V1FormNoSig(1, 2, 10), chain.V1Revise("pay"), chain.V1Proof(false),
-		chain.V2Pay(chain.AddrV2, true, 2), chain.V2Pay(chain.AddrV1, false, 1), chain.V2SF(true), chain.V2Form(1, 2, 100), chain.V2Form(0, 1, 10), chain.V2Form(0, 1, 0),
+		chain.V1Pay(true, 2), chain.V1Chain(), chain.V1SF(true), chain.V1Form(1, 2, 100), chain.V1Form(0, 2, 10), chain.V1FormNoSig(1, 2, 10), chain.V1Revise("pay"), chain.V1Proof(false),
+		chain.V2Pay(chain.AddrV2, true, 2), chain.V2Pay(chain.AddrV1, false, 1), chain.V2Chain(chain.AddrV2), chain.V2SF(true), chain.V2Form(1, 2, 100), chain.V2Form(0, 1, 10), chain.V2Form(0, 1, 0),
 		chain.V2Revise("pay"), chain.V2Renew("partial"), chain.V2Proof(), chain.V2Expire(),
 	}
 }
@@ -60,7 +60,7 @@ func run(c *vf.Ctx) {
 		x.Run()
 		x.Report(n + "/")
 	}
-	c.RequireFeature("attack_rejected", "control_accepted", "attack:same-block", "attack:same-block-after-revision", "attack:same-tx", "attack:next-block-stale", "attack:next-block-updated", "attack:reorg",
+	c.RequireFeature("attack_rejected", "control_accepted", "attack:same-block", "attack:same-block-after-revision", "attack:same-tx", "attack:next-block-stale", "attack:next-block-updated", "attack:next-block-ephemeral", "attack:reorg",
 		"kind:sc-v1addr", "kind:sc-v2addr", "kind:sc-nosig", "kind:sf-nosig", "kind:sf", "kind:fc", "kind:v2fc", "kind:ephemeral")
 	c.Assume("every attack block is built by the harness' own builder: correct parent, timestamp, commitment/Merkle root, miner payout and nonce; the control experiment (same block without the second use) must be accepted, so an attack cannot be rejected merely for being badly sealed")
 }
@@ -499,6 +499,42 @@ func ephemeral(c *vf.Ctx, x *chain.Explorer, w *chain.World, path []string, v1ok
 			x.Violate("second-use-accepted|ephemeral|"+v.name, fmt.Sprintf("in-block output spent twice (%s) ACCEPTED at height %d", v.name, h), path)
 		} else {
 			c.Count("attack_rejected", 1)
+		}
+		// later block: the output that was created AND spent in block [creator, u1] is presented again, with the
+		// element (leaf index, proof) that block's own update reported for it
+		b1, bs1 := w.BlockOfUses(creator, u1)
+		w1 := w.Clone()
+		if err, p := w1.ApplyFrom(w, b1, bs1); err != nil || p != nil {
+			if p != nil {
+				x.Violate(p.Sig, p.Desc, path)
+			}
+			continue
+		}
+		au := lastUpdate(w, b1, bs1)
+		for _, d := range au.SiacoinElementDiffs() {
+			if d.SiacoinElement.ID != eph.ID {
+				continue
+			}
+			stale := d.SiacoinElement.Copy()
+			var again chain.Use
+			switch {
+			case w1.ChildHeight() >= w1.Net.HardforkV2.AllowHeight && (v.creator == "v2" || true) && w1.Keys.ClassOf(stale.SiacoinOutput.Address) >= 0 && v2ok:
+				again = w1.UseV2SC(stale, 3)
+			case w1.ChildHeight() < w1.Net.HardforkV2.RequireHeight && v.creator == "v1":
+				again = w1.UseV1SC(stale, 3)
+			default:
+				continue
+			}
+			c.Count("attack:next-block-ephemeral", 1)
+			c.Distinct(w.Spec.Name, h, "ephemeral-next-block", v.name)
+			b2, bs2 := w1.BlockOfUses(again)
+			if ok, p := accept(x, w1, b2, bs2); p != nil {
+				x.Violate("attack|panic|ephemeral-next-block", fmt.Sprintf("panic: %v", p), path)
+			} else if ok {
+				x.Violate("second-use-accepted|ephemeral|"+v.name+"|next-block", fmt.Sprintf("output created and spent inside the block at height %d (%s) was spent AGAIN in the next block with the element reported by that block's update: ACCEPTED", h, v.name), path)
+			} else {
+				c.Count("attack_rejected", 1)
+			}
 		}
 	}
 }
